@@ -194,8 +194,10 @@ theorem render_eq_intercalate (l : TsvLine) : l.render = "\t".intercalate l.fiel
 
 /-- the `Canonical=` token: absent without `--check_canonical` or without a reference window; `Unspliced` for a read
     without introns; otherwise True exactly when every intron of the read has a canonical dinucleotide pair on the
-    read's reported strand in the reference (C18's declarative predicate) -/
+    read's reported strand in the reference (C18's declarative predicate); a read whose reported strand is `.` (hypothesis
+    `hst` excludes it here) is True when its chain is canonical on one of the two strands: C18 `canonical_pure_declarative_dot` -/
 theorem canonical_token (P : Params) (gv : GeneView) (r : ReadAssignment)
+    (hst : strandOf r.strand ≠ .dot)
     (hin : ∀ it ∈ junctionsFromBlocks r.exons, gv.ref.start ≤ it.1 ∧ gv.ref.start < it.2) :
     (canonField P gv r = none ↔ ¬ (P.checkCanonical = true ∧ gv.ref.refRegion ≠ [])) ∧
     (P.checkCanonical = true → gv.ref.refRegion ≠ [] →
@@ -218,7 +220,7 @@ theorem canonical_token (P : Params) (gv : GeneView) (r : ReadAssignment)
       simp only [pureFlag, hj, if_false, Option.some.injEq]
       have hall : pureAnswer gv.ref (junctionsFromBlocks r.exons) (strandOf r.strand) = true ↔
           ∀ it ∈ junctionsFromBlocks r.exons, CanonicalOn gv.ref it (strandOf r.strand) := by
-        rw [pureAnswer, List.all_eq_true]
+        rw [pureAnswer_stranded _ _ _ hst, List.all_eq_true]
         constructor
         · intro hh it hit
           exact (canonCompute_iff gv.ref it _ (hin it hit).1 (hin it hit).2).mp (hh it hit)
@@ -493,6 +495,9 @@ example : Reachable exView.ref (C18.checkSites exView.ref [(1201, 1499)] .plus [
     exRA.correctedExons ≠ [] ∧ (Checker.only [.«unique»]).check exRA = false := by
   refine ⟨Reachable.query [] _ _ Reachable.fresh, by decide +kernel, rfl, by decide +kernel, rfl, by decide +kernel,
     by decide +kernel, by decide, by decide⟩
+
+-- hypothesis `hst` of `canonical_token`: the example read has a definite strand
+example : strandOf exRA.strand ≠ .dot := by decide
 
 -- the memo does not matter: after a '+' query on the same intron (answer False) the '-' read still prints True
 example : (printRecords exCfgP exView [exRA] (C18.checkSites exView.ref [(1201, 1499)] .plus []).2).map
